@@ -83,7 +83,9 @@ class St:
         self.round_leaves = round_leaves
 
 
-def _fin(st, v):
+def _fin(st, v, leaf=False):
+    """range check, scale tracking and (conditioning runs only) 1e-15 relative noise on the result of an
+    operation; leaves and exactly integer results carry no rounding error in double arithmetic"""
     if not (MP.isfinite(v)):
         raise Skip("not finite")
     a = abs(v)
@@ -91,8 +93,10 @@ def _fin(st, v):
         raise Skip("overflow")
     if a > st.scale:
         st.scale = float(a)
-    if st.noisy is not None and v != 0:
+    if st.noisy is not None and not leaf and v != 0:
         r = st.noisy
+        if MP.im(v) == 0 and a < 2**53 and MP.re(v) == MP.floor(MP.re(v)):
+            return v
         if MP.im(v) == 0:
             v = v * (1 + MP.mpf(1e-15 * r.uniform(-1, 1)))
         else:
@@ -104,11 +108,11 @@ def _num(st, x):
     if isinstance(x, bool):
         raise Unknown("bool")
     if isinstance(x, int):
-        return _fin(st, MP.mpf(x))
+        return _fin(st, MP.mpf(x), True)
     if isinstance(x, float):
-        return _fin(st, MP.mpf(x))
+        return _fin(st, MP.mpf(x), True)
     if isinstance(x, complex):
-        return _fin(st, MP.mpc(x.real, x.imag))
+        return _fin(st, MP.mpc(x.real, x.imag), True)
     raise Unknown(type(x).__name__)
 
 
@@ -174,17 +178,17 @@ def ev_sympy(e, env, st):
     if isinstance(e, (int, float, complex)):
         return _num(st, e)
     if isinstance(e, S.Symbol):
-        return _fin(st, env(e.name))
+        return _fin(st, env(e.name), True)
     if isinstance(e, S.Integer):
-        return _fin(st, MP.mpf(int(e)))
+        return _fin(st, MP.mpf(int(e)), True)
     if isinstance(e, S.Rational):
         if st.round_leaves:
-            return _fin(st, MP.mpf(float(e)))
-        return _fin(st, MP.mpf(int(e.p)) / MP.mpf(int(e.q)))
+            return _fin(st, MP.mpf(float(e)), True)
+        return _fin(st, MP.mpf(int(e.p)) / MP.mpf(int(e.q)), True)
     if isinstance(e, S.Float):
         if st.round_leaves:
-            return _fin(st, MP.mpf(float(e)))
-        return _fin(st, MP.make_mpf(e._mpf_))
+            return _fin(st, MP.mpf(float(e)), True)
+        return _fin(st, MP.make_mpf(e._mpf_), True)
     if e is S.I:
         return MP.mpc(0, 1)
     if isinstance(e, S.Add):
@@ -216,7 +220,7 @@ def ev_native(t, env, st):
         return _num(st, t)
     tn = type(t).__name__
     if tn == "Symbol" and isinstance(t, tuple):
-        return _fin(st, env(t.name))
+        return _fin(st, env(t.name), True)
     if tn == "FunctionCall" and isinstance(t, tuple):
         name = t.name
         args = [ev_native(a, env, st) for a in t.args]
@@ -909,6 +913,10 @@ def run_case(ctx):
         a, b, c = (rand_tree(rng, lvl) if lvl else rand_symbol(rng) for _ in range(3))
         if lvl == 0 and rng.random() < 0.25:
             b = rand_number(rng, allow_zero=False)
+        if getattr(b, "is_number", False) and _magnitude(S, b) > 4:
+            b = rand_symbol(rng)
+        if getattr(a, "is_number", False) and _magnitude(S, a) > 40:
+            a = rand_symbol(rng)
         e = mk(S, a, b, c)
         ctx.describe(f"special {label} {srepr_short(e)}", bool(getattr(e, "free_symbols", None)) and size_of(e) >= 3)
         _roundtrip(ctx, e, label)
